@@ -70,6 +70,8 @@ type Meta struct {
 	// (engines whose observations depend on process-wide state such as the race detector's
 	// shadow memory and report de-duplication).
 	FreshProcessShrink bool
+	// ShrinkBudget bounds the re-executions spent on minimising one violation (default 400).
+	ShrinkBudget int
 }
 
 // Engine is one property's simulated check.
@@ -794,7 +796,10 @@ func doShrink(e Engine, x *Ctx, path string) int {
 	deadline := time.Now().Add(12 * time.Minute)
 	fresh := e.Meta().FreshProcessShrink
 	budgetRuns := budget
-	if fresh {
+	if b := e.Meta().ShrinkBudget; b > 0 {
+		budgetRuns = b
+	}
+	if fresh && budgetRuns > 60 {
 		budgetRuns = 60
 	}
 	exe, _ := os.Executable()
